@@ -8,6 +8,7 @@ import (
 type varInfo struct {
 	Name, Type string
 	Kind       string // field | param | local | other
+	Final      bool
 }
 
 type bodyCtx struct {
@@ -52,14 +53,16 @@ func (g *genCtx) bodies(ti *typeInfo) {
 		b := &bodyCtx{g: g, ti: ti, m: m, static: contains(m.Modifiers, "public static")}
 		if !b.static {
 			for _, f := range ti.Decl.Fields() {
-				b.scope = append(b.scope, &varInfo{Name: f.Name, Type: f.Type, Kind: "field"})
+				b.scope = append(b.scope, &varInfo{Name: f.Name, Type: f.Type, Kind: "field", Final: strings.Contains(strings.Join(f.Modifiers, " "), "final")})
 			}
 		}
 		for _, p := range m.Params {
-			b.scope = append(b.scope, &varInfo{Name: p.Name, Type: p.Type, Kind: "param"})
+			b.scope = append(b.scope, &varInfo{Name: p.Name, Type: p.Type, Kind: "param", Final: p.Final})
 		}
 		n := g.r.Range(0, g.o.MaxStmts)
-		m.Body = b.stmts(0, n)
+		for i := 0; i < n; i++ {
+			m.Body = append(m.Body, b.stmt(0)) // top-level locals stay in scope for the return expression
+		}
 		if !m.IsCtor && m.Ret != "void" && m.Ret != "" {
 			m.Body = append(m.Body, &Stmt{Kind: "return", E: b.valueExpr(1, m.Ret)})
 		}
@@ -68,15 +71,16 @@ func (g *genCtx) bodies(ti *typeInfo) {
 
 func (b *bodyCtx) budget() bool { return b.sites < b.g.o.MaxSites }
 
-func (b *bodyCtx) localName() string {
+func (b *bodyCtx) localName(depth int) string {
 	r := b.g.r
 	name := r.Pick(varWords)
 	if b.used == nil {
 		b.used = map[string]bool{}
 	}
 	v := b.lookup(name)
-	// a local may hide a field (if enabled) but never a parameter or another local of this method
-	if b.used[name] || v != nil && !(v.Kind == "field" && b.g.o.Shadowing && r.Bool()) {
+	// a local may hide a field (if enabled, and only when declared at the top level of the method body, so that
+	// the name never means the field again after an inner block ended) but never a parameter or another local
+	if b.used[name] || v != nil && !(v.Kind == "field" && b.g.o.Shadowing && depth == 0 && r.Bool()) {
 		for {
 			b.seq++
 			cand := fmt.Sprintf("%s%d", name, b.seq)
@@ -109,19 +113,18 @@ func (b *bodyCtx) stmt(depth int) *Stmt {
 	switch {
 	case k < 4: // local declaration
 		ty, _, _ := b.g.pickType(b.ti)
-		name := b.localName()
+		name := b.localName(depth)
 		s := &Stmt{Kind: "local", Type: ty, Var: name, Final: r.Chance(1, 6)}
+		// the scope of a local starts at its declarator, i.e. it includes its own initialiser
+		b.scope = append(b.scope, &varInfo{Name: name, Type: ty, Kind: "local", Final: s.Final})
 		if r.Chance(4, 5) {
 			s.E = b.valueExpr(depth+1, ty)
 		}
 		if r.Chance(1, 8) && !strings.Contains(ty, "[") {
-			extra := b.localName()
+			extra := b.localName(depth + 1) // a further declarator never hides a field (its scope starts mid-statement)
+			b.scope = append(b.scope, &varInfo{Name: extra, Type: ty, Kind: "local", Final: s.Final})
 			s.Extra = append(s.Extra, Declarator{Var: extra, Init: b.valueExpr(depth+1, ty)})
-			b.scope = append(b.scope, &varInfo{Name: name, Type: ty, Kind: "local"})
-			b.scope = append(b.scope, &varInfo{Name: extra, Type: ty, Kind: "local"})
-			return s
 		}
-		b.scope = append(b.scope, &varInfo{Name: name, Type: ty, Kind: "local"})
 		return s
 	case k < 6: // assignment to a visible variable
 		vs := b.visible()
@@ -129,7 +132,7 @@ func (b *bodyCtx) stmt(depth int) *Stmt {
 			return &Stmt{Kind: "expr", E: b.call(depth + 1)}
 		}
 		v := vs[r.Intn(len(vs))]
-		if v.Kind == "other" {
+		if v.Kind == "other" || v.Final {
 			return &Stmt{Kind: "expr", E: b.call(depth + 1)}
 		}
 		s := &Stmt{Kind: "assign", Var: v.Name}
